@@ -81,7 +81,10 @@ func (eng *Engine) verifyFunctionSpec(fn *ssa.Function, modes Modes, spec map[st
 				return alt
 			}
 			// the clause that does not resolve may belong to a callee whose body is executed in place
-			if owner := eng.clauseOwner(res.Err); owner != nil && owner != fn {
+			for _, owner := range eng.clauseOwners(res.Err) {
+				if owner == fn {
+					continue
+				}
 				if oct := eng.contractFor(owner); oct != nil && eng.ctOverride[shortFn(owner)] == nil {
 					if r := eng.inferRenaming(owner, modes, nil, oct, res.Err); r != nil && r.Contract != nil {
 						if eng.ctOverride == nil {
